@@ -148,7 +148,10 @@ pub fn check_own_case(steps: &[OwnStep], agg: &mut Agg) -> Result<(), String> {
         channel: 1,
         start_running: true,
     };
-    let mut e = Engine::new(&setup)?;
+    let mut e = match Engine::try_new(&setup)? {
+        Some(e) => e,
+        None => return Ok(()),
+    };
     let mut ms = OwnModel { admin: e.a.admin0.clone(), nominee: None, earliest: None };
     // ---- treasury contract
     let tadmin = acct("osmo", "admin0", 20);
